@@ -18,7 +18,7 @@ from .rules.common import counterpart, role_of, call_name
 REDUCTIONS = {"np.sum", "np.min", "np.max", "np.mean", "np.any", "np.all", "np.median", "np.std", "np.prod"}
 ELEMENTWISE = {"astype", "np.log", "np.log2", "np.round", "np.abs", "np.exp", "np.sqrt", "np.logical_not", "np.array", "np.floor", "np.ceil"}
 TWO_SIDED = {"segment._contingency_matrix"}
-COMMUTATIVE_FUNCS = {"pattern._occurrence_intersection", "np.dot"}
+COMMUTATIVE_FUNCS = {"pattern._occurrence_intersection", "np.dot", ".intersection", ".union"}
 SYM_WITH_TABLE = {"segment._mutual_info_score": "contingency"}
 
 
